@@ -28,7 +28,7 @@ ASSUMPTIONS = [
     'BOUNDED part (not decidable by this family): conversions back to Kraus form (numpy.linalg.eigh), data-processing inequalities (trace distance, fidelity, relative entropy: spectral functions), entropy ranges, torch branches',
     'sizes: dim_in, dim_out in 1..3 (4 thorough), 1..3 (4) Kraus terms, operators and input fully symbolic complex',
 ]
-STUBS = ['numpy.linalg.eigh -> assumed contract (fixed rational eigenvalues, symbolic eigenvector matrix) in choi_op_to_kraus_op.plumbing']
+STUBS = ['numpy.linalg.eigh -> assumed contract (fixed rational eigenvalues, symbolic eigenvector matrix) in choi_op_to_kraus_op.plumbing and get_fidelity.numpy_branch', 'numpy.linalg.eigvalsh -> recorder returning fixed rational eigenvalues (get_fidelity.numpy_branch)']
 NUMPY_MODELS = []
 BOUNDED_RULE = ('seeded random channels with dim_in, dim_out in 1..5 and 1..dim_in*dim_out Kraus terms (incl. rank-deficient Choi operators, isometries, unitaries), random full-rank/low-rank/pure inputs: '
                 'Choi/super-op -> Kraus round trips reproduce the channel output; trace distance does not increase, fidelity does not decrease, relative entropy does not increase; fidelity symmetric in [0,1]; '
@@ -276,7 +276,87 @@ TOKRAUS = Id('choi_op_to_kraus_op.plumbing', ['numqi.channel._internal:choi_op_t
              call=_tokraus_call, post=_tokraus_post, sample=_tokraus_sample, label=lambda sh: f'din={sh[0]},dout={sh[1]},eigenvalues_below_threshold={sh[2]}')
 TOKRAUS.comparable = lambda r: []
 
-CONTRACTS = {c.name: c for c in [EQUIV, CONV, BLOCH, NOISE, TOKRAUS]}
+# ---- get_fidelity (numpy branch): the pure-state cases are exact identities; the mixed/mixed case is proved modulo the ASSUMED contracts of eigh / eigvalsh:
+# with rho0 = V diag(w) V^dagger the matrix handed to eigvalsh is D V^dagger rho1 V D, D = diag(sqrt(max(0,w))) (unitarily similar to sqrt(rho0) rho1 sqrt(rho0) for unitary V),
+# and the result is (sum of the square roots of its non-negative eigenvalues)^2.
+import numqi.utils as _ut
+_FW = [sp.Rational(-1, 100), sp.Rational(1, 5), sp.Rational(3, 10), sp.Rational(51, 100), sp.Rational(7, 9)]
+_FM = [sp.Rational(-1, 50), sp.Rational(1, 9), sp.Rational(1, 4), sp.Rational(16, 25), sp.Rational(4, 49)]
+
+
+def _fid_call(I):
+    r0, r1, a, b = I['rho0'], I['rho1'], I['a'], I['b']
+    out = dict(pp=_ut.get_fidelity(a, b), pm=_ut.get_fidelity(a, r1), mp=_ut.get_fidelity(r0, b))
+    if not isinstance(r0, SymArray):
+        out['mm'] = _ut.get_fidelity(r0, r1); out['sym'] = False
+        return out
+    d = SS.arr(r0).shape[0]
+    rec = {}
+    w = _FW[:d]; mu = _FM[:d]
+    shim_np = _ut.np; real_linalg = shim_np.linalg
+
+    def eigh(x):
+        rec['eigh'] = x
+        e = np.empty(d, dtype=object); e[:] = w
+        return SymArray(e, np.float64, ALG), I['V']
+
+    def eigvalsh(x):
+        rec['eigvalsh'] = x
+        e = np.empty(d, dtype=object); e[:] = mu
+        return SymArray(e, np.float64, ALG)
+
+    class L(_types.ModuleType):
+        def __getattr__(s_, k): return getattr(real_linalg, k)
+    Lm = L('lin'); Lm.eigh = eigh; Lm.eigvalsh = eigvalsh
+    shim_np.__dict__['linalg'] = Lm
+    try:
+        out['mm'] = _ut.get_fidelity(r0, r1)
+    finally:
+        shim_np.__dict__['linalg'] = real_linalg
+    out.update(sym=True, eigh_arg=rec.get('eigh'), M=rec.get('eigvalsh'), w=w, mu=mu)
+    return out
+
+
+def _fid_post(I, r):
+    r0, r1, a, b = (SS.arr(I[k]) for k in ('rho0', 'rho1', 'a', 'b'))
+    obj = r0.dtype == object
+    cj = (lambda z: sp.conjugate(z)) if obj else np.conj
+    ab = sum(cj(x) * y for x, y in zip(a, b))
+    sc = lambda v: v if isinstance(v, sp.Basic) or not hasattr(v, 'ravel') else SS.arr(v).ravel()[0]
+    re_ = (lambda z: sp.re(sp.expand(z))) if obj else np.real
+    cl = [('pure_pure_is_squared_overlap', sc(r['pp']), sp.expand(ab * cj(ab)) if obj else abs(ab) ** 2),
+          ('pure_mixed_is_expectation', sc(r['pm']), re_(sum(cj(a[i]) * r1[i, j] * a[j] for i in range(len(a)) for j in range(len(a))))),
+          ('mixed_pure_is_expectation', sc(r['mp']), re_(sum(cj(b[i]) * r0[i, j] * b[j] for i in range(len(b)) for j in range(len(b)))))]
+    if r.get('sym'):
+        V = SS.arr(I['V']); d = r0.shape[0]
+        D = [sp.sqrt(max(sp.Integer(0), x)) for x in r['w']]
+        ref = np.empty((d, d), dtype=object)
+        for i in range(d):
+            for j in range(d):
+                ref[i, j] = D[i] * D[j] * sum(sp.conjugate(V[k, i]) * r1[k, l] * V[l, j] for k in range(d) for l in range(d))
+        cl += [('eigh_receives_rho0', SS.arr(r['eigh_arg']), r0), ('eigvalsh_receives_D_Vdagger_rho1_V_D', SS.arr(r['M']), ref),
+               ('result_is_squared_sum_of_roots_of_nonnegative_eigenvalues', sc(r['mm']), sp.expand(sum(sp.sqrt(max(sp.Integer(0), x)) for x in r['mu']) ** 2))]
+    else:
+        w0, v0 = np.linalg.eigh(r0); s0 = (v0 * np.sqrt(np.maximum(w0, 0))) @ v0.conj().T
+        cl.append(('result_is_squared_sum_of_roots_of_nonnegative_eigenvalues', sc(r['mm']), np.sum(np.sqrt(np.maximum(0, np.linalg.eigvalsh(s0 @ r1 @ s0)))) ** 2))
+    return cl
+
+
+def _fid_sample(rng, d):
+    def dm():
+        x = _rc(rng, d, d); m = x @ x.conj().T
+        return m / np.trace(m).real
+    def ket():
+        x = _rc(rng, d); return x / np.linalg.norm(x)
+    return dict(rho0=dm(), rho1=dm(), a=ket(), b=ket(), V=None)
+
+
+FID = Id('get_fidelity.numpy_branch', ['numqi.utils:get_fidelity'],
+         inputs=lambda d: dict(rho0=alg.sym_complex('p', (d, d))[0], rho1=alg.sym_complex('q', (d, d))[0], a=alg.sym_complex('a', (d,))[0], b=alg.sym_complex('b', (d,))[0], V=alg.sym_complex('v', (d, d))[0]),
+         call=_fid_call, post=_fid_post, sample=_fid_sample, label=lambda d: f'd={d}', modules=[_ut])
+FID.comparable = lambda r: []
+
+CONTRACTS = {c.name: c for c in [EQUIV, CONV, BLOCH, NOISE, TOKRAUS, FID]}
 
 
 def _norm(x):
@@ -286,7 +366,7 @@ def _norm(x):
 def job_identity(tier, rng, cname, shapes):
     out = []
     for sh in shapes:
-        out += verify_identity(CONTRACTS[cname], _norm(sh) if not isinstance(sh, str) else sh, tier, rng, crosscheck=0 if cname.endswith('plumbing') else 1)
+        out += verify_identity(CONTRACTS[cname], _norm(sh) if not isinstance(sh, str) else sh, tier, rng, crosscheck=0 if (cname.endswith('plumbing') or cname.startswith('get_fidelity')) else 1)
     return out
 
 
@@ -385,6 +465,8 @@ def jobs(tier):
     tk = [(1, 2, 0), (2, 1, 1), (2, 2, 0), (2, 2, 2), (2, 3, 1), (3, 2, 3)] + ([(3, 3, 0), (3, 3, 4), (2, 4, 3)] if tier != 'quick' else [])
     for s_ in tk:
         J.append(('job_identity', dict(cname='choi_op_to_kraus_op.plumbing', shapes=[s_])))
+    for d_ in (2, 3) + ((4,) if tier != 'quick' else ()):
+        J.append(('job_identity', dict(cname='get_fidelity.numpy_branch', shapes=[d_])))
     for fn in ['hf_dephasing_kraus_op', 'hf_depolarizing_kraus_op', 'hf_amplitude_damping_kraus_op']:
         J.append(('job_identity', dict(cname='noise_channels', shapes=[fn])))
     for din in range(1, 6):
